@@ -320,14 +320,60 @@ def build_field(model, mesh, cons, t=0.0, it=-1):
 
 
 # ----------------------------------------------------------------------------- discretisation / integrators
+def _preuse(num_desc, *key):
+    """deterministic coin (a pure function of the case): is the reconstruction object first used elsewhere?"""
+    import zlib
+    return zlib.crc32(repr((sorted(num_desc.items()), key)).encode()) % 2 == 0
+
+
+def preuse_num(num, mesh):
+    """A reconstruction object is not tied to a mesh: user scripts build one and hand it to several discretisations.  Use it once on ANOTHER 1-D mesh
+    with the same number of cells and the same end faces (a smoothly stretched distribution; uniform if the mesh itself is the stretched one) before
+    it serves the operator under test."""
+    import flowdyn.modeldisc as modeldisc
+    import flowdyn.modelphy.convection as conv
+    xf = np.asarray(mesh.xf, dtype=float)
+    n = len(xf) - 1
+    if n < 2:
+        return
+    s_ = np.linspace(0.0, 1.0, n + 1)
+    xd = xf[0] + (xf[-1] - xf[0]) * (s_ + 0.3 * s_ * (1.0 - s_))
+    xd[0], xd[-1] = xf[0], xf[-1]
+    if not np.all(np.diff(xd) > 0):
+        return
+    decoy = mesh_from_faces(xd)
+    m = conv.model(1.0)
+    d = modeldisc.fvm(m, decoy, num, numflux=None, bcL={"type": "per"}, bcR={"type": "per"})
+    d.rhs(build_field(m, decoy, [np.sin(1.0 + 2.3 * np.arange(n))]))
+
+
+def preuse_num2d(num, model, nx, ny):
+    """same in 2-D: the reconstruction object first serves a grid with other cell sizes and the transposed cell counts"""
+    import flowdyn.modeldisc as modeldisc
+    import flowdyn.modelphy.euler as euler
+    m = euler.euler2d(gamma=1.4)
+    decoy = build_mesh2d(dict(nx=ny + 1, ny=nx, lx=0.7, ly=1.9))
+    per = {"type": "per"}
+    d = modeldisc.fvm2d(m, decoy, num=num, numflux="hlle", bclist=dict(left=per, right=per, bottom=per, top=per))
+    n = (ny + 1) * nx
+    w = 1.0 + 0.1 * np.sin(1.0 + 2.3 * np.arange(n))
+    d.rhs(build_field(m, decoy, m.prim2cons([w, np.vstack([0.1 * w, -0.2 * w]), w])))
+
+
 def build_disc(model, mesh, num_desc, flux, bcL, bcR):
     import flowdyn.modeldisc as modeldisc
-    return modeldisc.fvm(model, mesh, build_num(num_desc), numflux=flux, bcL=bcL, bcR=bcR)
+    num = build_num(num_desc)
+    if _preuse(num_desc, int(mesh.ncell), flux):
+        preuse_num(num, mesh)
+    return modeldisc.fvm(model, mesh, num, numflux=flux, bcL=bcL, bcR=bcR)
 
 
 def build_disc2d(model, mesh, num_desc, flux, bclist):
     import flowdyn.modeldisc as modeldisc
-    return modeldisc.fvm2d(model, mesh, num=build_num(num_desc), numflux=flux, bclist=bclist)
+    num = build_num(num_desc)
+    if _preuse(num_desc, int(mesh.nx), int(mesh.ny), flux):
+        preuse_num2d(num, model, int(mesh.nx), int(mesh.ny))
+    return modeldisc.fvm2d(model, mesh, num=num, numflux=flux, bclist=bclist)
 
 
 EXPLICIT = ["explicit", "rk2", "rk2_heun", "rk3_heun", "rk3ssp", "rk4", "lsrk25bb", "lsrk26bb", "lsrk4", "forwardeuler"]
